@@ -80,7 +80,11 @@ def ticket_generator(initial: int = 1) -> Generator[int, None, None]:
 async def cancel_task(task: Optional[asyncio.Task]):
     if task:
         task.cancel()
-        try:
-            await task
-        except asyncio.CancelledError:
-            pass
+        # Don't ``await task`` and catch the CancelledError: it is impossible to
+        # tell whether that error is the cancellation of the passed task or a
+        # cancellation of the calling task, which should never be swallowed
+        if not task.done():
+            await asyncio.wait([task])
+
+        if not task.cancelled():
+            task.result()
